@@ -14,6 +14,7 @@ import numpy as np
 import common as C
 
 META = {
+    "claimed": True,
     "id": "C12",
     "coq_targets": ["Props/C12.vo", "Extract/Extract_C12.vo"],
     "technique": "Coq proof over an executable model of the import pipeline (insertion-ordered dicts for the name map, the DataFrame and the InMemoryGeff property dict; fold invariants for the renaming loop and for _combine_multi_value_props) + differential correspondence of the extracted model with tracks_from_df on real DataFrames and import_from_geff on real GEFF stores + direct oracle from the generating table",
